@@ -84,7 +84,8 @@ def gen_case(rng: random.Random, tier: str) -> dict:
         if len(cur_nodes) <= 1:
             break
     ren = {"style": rng.choice(["none", "none", "fresh", "chain", "swap", "out", "mixed"]), "seed": rng.randrange(1 << 30)}
-    return {"graph": g, "inputs": inp, "cuts": cuts, "rename": ren, "inner_select": rng.random() < 0.25, "bind_inner": rng.random() < 0.7, "async": [gen.gen_async_cfg(rng, allow_hold=True) for _ in range(2)]}
+    return {"graph": g, "inputs": inp, "cuts": cuts, "rename": ren, "inner_select": rng.random() < 0.25, "bind_inner": rng.random() < 0.7,
+            "touch": rng.choice([[], [], ["spec"], ["graph"], ["spec", "graph"]]), "bind_conflict": rng.random() < 0.3, "async": [gen.gen_async_cfg(rng, allow_hold=True) for _ in range(2)]}
 
 
 # ------------------------------------------------------------------ nesting
@@ -94,6 +95,7 @@ def build_nested(doc: dict) -> tuple[dict, dict, dict, dict]:
     bind = dict(doc["inputs"]["bind"])
     nodes = copy.deepcopy(g["nodes"])
     info = {"crossing": 0, "group_has_default_or_bound": False}
+    conflict: set[str] = set()
 
     def consumers_outside(name: str, group: set[str], universe: list[dict]) -> bool:
         return any(p["name"] == name for nd in universe if nd["name"] not in group for p in nd.get("params", []))
@@ -117,7 +119,11 @@ def build_nested(doc: dict) -> tuple[dict, dict, dict, dict]:
         if doc.get("bind_inner"):
             for x in inner_in:
                 if x in bind:
-                    ibind[x] = bind[x]
+                    # with bind_conflict the inner graph binds ANOTHER value and the enclosing graph binds the real one:
+                    # the enclosing graph's binding must win, exactly as in the flat graph
+                    ibind[x] = bind[x] + 1 if doc.get("bind_conflict") else bind[x]
+                    if doc.get("bind_conflict"):
+                        conflict.add(x)
         inner = {"name": f"G{lvl}", "nodes": inner_nodes, "order": list(range(len(inner_nodes))), "bind": ibind}
         prod_outside = {o for nd in rest for o in nd["outs"]}
         info["crossing"] += sum(1 for x in inner_in if x in prod_outside) + sum(1 for o in inner_outs if consumers_outside(o, group, level_nodes))
@@ -127,7 +133,10 @@ def build_nested(doc: dict) -> tuple[dict, dict, dict, dict]:
             needed = [o for o in inner_outs if consumers_outside(o, group, level_nodes)]
             if needed:
                 inner["select"] = needed
-        gnode = {"kind": "graph", "name": f"G{lvl}", "graph": inner, "_in": inner_in, "_outs": inner.get("select") or inner_outs, "_ibind": ibind}
+        gnode = {"kind": "graph", "name": f"G{lvl}", "graph": inner, "_in": inner_in, "_outs": inner.get("select") or inner_outs, "_ibind": ibind, "touch": list(doc.get("touch") or [])}
+        if conflict and lvl > 0:
+            # the enclosing (inner-level) graph re-binds the real value for names its own nested graph bound differently
+            pass
         return rest + [gnode]
 
     top_nodes = wrap(nodes, doc["cuts"], 0, nodes)
@@ -136,7 +145,7 @@ def build_nested(doc: dict) -> tuple[dict, dict, dict, dict]:
     for x, v in bind.items():
         used_outer = any(p["name"] == x for nd in top_nodes if nd["kind"] == "fn" for p in nd["params"])
         moved = any(x in nd.get("_ibind", {}) for nd in top_nodes if nd["kind"] == "graph")
-        if used_outer or not moved:
+        if used_outer or not moved or x in conflict:
             outer_bind[x] = v
     # renames on the (top-level) wrapper, rest of the graph alpha-renamed to match
     rho: dict[str, str] = {}
